@@ -178,6 +178,36 @@ func cflistDec(s *cases.Set, b []byte, kind string) {
 		Replay: map[string]interface{}{"api": "CFList.UnmarshalBinary, then MarshalBinary of the decoded value", "bytes": fmt.Sprintf("%x", b)}})
 }
 
+// joinAcceptDec: JoinAcceptPayload.UnmarshalBinary of raw octets, then MarshalBinary of the decoded value.
+// Bits 7..4 of the RxDelay octet and octets 12..14 of a channel-mask CFList are RFU.
+func joinAcceptDec(s *cases.Set, b []byte, kind string) {
+	o, re := cq.Err, cq.Err
+	func() {
+		defer func() {
+			if r := recover(); r != nil {
+				o = cq.Panic
+			}
+		}()
+		var p lorawan.JoinAcceptPayload
+		if err := p.UnmarshalBinary(false, append([]byte{}, b...)); err != nil {
+			return
+		}
+		o = cq.Ok(framefmt.Payload(&p, 0))
+		func() {
+			defer func() {
+				if r := recover(); r != nil {
+					re = cq.Panic
+				}
+			}()
+			if rb, err := p.MarshalBinary(); err == nil {
+				re = cq.Ok(cq.Bytes(rb))
+			}
+		}()
+	}()
+	s.Add(cases.Case{Term: fmt.Sprintf("CJoinAcceptDec %s %s %s", cq.Bytes(b), o, re), Key: fmt.Sprintf("ja-dec:%x", b), Kind: kind, Nontrivial: true,
+		Replay: map[string]interface{}{"api": "JoinAcceptPayload.UnmarshalBinary, then MarshalBinary of the decoded value", "bytes": fmt.Sprintf("%x", b)}})
+}
+
 // frameCases: MHDR, FCtrl, DLSettings (all 256 octets each), join / rejoin payloads, join-accept with both CFList kinds.
 func frameCases(s *cases.Set, r *cq.RNG, thorough bool) {
 	for v := 0; v < 256; v++ {
@@ -230,6 +260,20 @@ func frameCases(s *cases.Set, r *cq.RNG, thorough bool) {
 		}()
 		s.Add(cases.Case{Term: fmt.Sprintf("CFhdrEnc %s %s", t, o), Key: "fhdr-enc:" + t, Kind: kind, Nontrivial: true,
 			Replay: map[string]interface{}{"api": "FHDR.MarshalBinary", "value": t}})
+	}
+	// more FOpts than the 4-bit FOptsLen can announce: around 15, and around every multiple of 256 (uint8 wrap)
+	for _, k := range []int{16, 17, 31, 32, 255, 256, 257, 258, 260, 271, 272, 511, 512, 515, 527, 528, 1024, 1030} {
+		h := lorawan.FHDR{DevAddr: lorawan.DevAddr{1, 2, 3, 4}, FCnt: uint32(k)}
+		h.FOpts = []lorawan.Payload{&lorawan.DataPayload{Bytes: r.Bytes(k)}}
+		fhdrEnc(h, 0, "fhdr-fopts-too-long")
+		if k <= 600 {
+			// the same number of octets as separate commands (LinkCheckReq 0x02 has no payload)
+			h.FOpts = nil
+			for j := 0; j < k; j++ {
+				h.FOpts = append(h.FOpts, &lorawan.MACCommand{CID: lorawan.LinkCheckReq})
+			}
+			fhdrEnc(h, 0, "fhdr-fopts-too-long")
+		}
 	}
 	for i := 0; i < n; i++ {
 		o := framefmt.ValidDataOpt(r)
@@ -289,6 +333,34 @@ func frameCases(s *cases.Set, r *cq.RNG, thorough bool) {
 			}
 			cflistDec(s, b, "cflist-dec-unknown-type")
 			cflistDec(s, r.Bytes([]int{0, 1, 12, 15, 17, 28}[r.Intn(6)]), "cflist-dec-wrong-length")
+		}
+	}
+	// join-accept payloads as a device sees them after decryption: every RxDelay octet, RFU parts set, random octets
+	for v := 0; v < 256; v++ {
+		b := r.Bytes(12)
+		b[11] = byte(v)
+		joinAcceptDec(s, b, "ja-dec-rxdelay-octet")
+	}
+	for i := 0; i < n; i++ {
+		ja := framefmt.JoinFrame(r, 1).MACPayload.(*lorawan.JoinAcceptPayload)
+		ja.CFList = framefmt.RandomCFList(r)
+		if b, err := ja.MarshalBinary(); err == nil {
+			joinAcceptDec(s, b, "ja-dec-encoded")
+			m := append([]byte{}, b...)
+			m[11] |= byte(1+r.Intn(15)) << 4
+			joinAcceptDec(s, m, "ja-dec-rxdelay-rfu-set")
+			if len(m) == 28 && m[27] == 1 {
+				copy(m[24:27], r.Bytes(3))
+				joinAcceptDec(s, m, "ja-dec-rxdelay-and-cflist-rfu-set")
+			}
+		}
+		b := r.Bytes(28)
+		b[27] = byte(i % 2)
+		joinAcceptDec(s, b, "ja-dec-random")
+		if i%8 == 0 {
+			b = r.Bytes(28)
+			joinAcceptDec(s, b, "ja-dec-random-any-cflist-type")
+			joinAcceptDec(s, r.Bytes([]int{0, 11, 13, 27, 29, 44}[r.Intn(6)]), "ja-dec-wrong-length")
 		}
 	}
 	for _, x := range rfu {
